@@ -73,7 +73,7 @@ class AORun:
         me.snaps = {}
 
         def snap(sc):
-          me.snaps[len(sc.log) - 1] = ([shims.ident(x) for x in ao.locking_deque.deque.raw()], ao.locking_deque.locking_queue._size())
+          me.snaps[sc.last_rec] = ([shims.ident(x) for x in ao.locking_deque.deque.raw()], ao.locking_deque.locking_queue._size())
         sched.observers.append(snap)
         ao.start_at(script.fn[1])
         sched.run()                       # warm-up: every service thread reaches its blocking point
